@@ -384,3 +384,96 @@ def s5(facts, rep):
         ok = whole or {"key_path", "value_hash"} <= fields
         rep.check(ok, "S5", short, "compares-whole-leaf", "%s does not compare the full expected leaf (key path AND value hash) with the proven terminal (whole-LeafData equality: %s; fields compared as whole arrays: %s): a key that merely shares the terminal's prefix is confirmed with the terminal's value" % (short, whole, sorted(fields)), site=facts.bodies[fn].span, detail="LeafData == LeafData" if whole else "fields %s" % sorted(fields))
     return n
+
+
+# ---- S7: an operation is matched to its proven path by prefix EQUALITY --------------------------------
+# `verify_update` of both proof kinds accepts an operation only for a terminal that covers its key, and raises OpOutOfScope
+# otherwise.  "Covers" is an equality of the key's leading bits with the terminal's path (`==`, `!=`, `starts_with`); an
+# ordering comparison (`<`, binary search for the first terminal not before the key) also accepts keys that fall into a GAP
+# between proven terminals and silently attributes them to the next one.  Rule: some branch that raises OpOutOfScope is decided
+# by an equality / starts_with comparison (directly, in a closure, or in a helper whose result it is).
+EQ_NAMES = ("eq", "ne", "starts_with", "ends_with", "strip_prefix")
+
+
+def _decided_by_equality(facts, body, op, depth=0):
+    import termination
+
+    def pred(r):
+        if r.kind not in ("call", "via"):
+            return False
+        c = str(r.what)
+        m = c.rsplit("::", 1)[-1]
+        if m in EQ_NAMES:
+            return True
+        hb = facts.bodies.get(c)
+        if hb is not None and hb.crate == "nomt_core" and depth < 3 and hb.local_ty(0) == "bool":
+            return _decided_by_equality(facts, hb, {"k": "copy", "pl": {"l": 0}}, depth + 1)
+        return False
+
+    if termination.derives_from(body, op, pred):
+        return True
+    # `opt.map_or(.., |x| a == b)` / `iter.any(|t| ..)`: the comparison sits in a closure handed to the call
+    for r in trace(body, op):
+        if r.kind in ("call", "via") and r.obj is not None:
+            for a in r.obj.get("args", []):
+                for x in trace(body, a):
+                    if x.kind == "agg" and x.obj is not None and x.obj.get("ak") == "closure" and x.obj.get("name") in facts.bodies and depth < 3:
+                        cb = facts.bodies[x.obj["name"]]
+                        if _decided_by_equality(facts, cb, {"k": "copy", "pl": {"l": 0}}, depth + 1):
+                            return True
+    return False
+
+
+def s7(facts, rep):
+    import panicfree
+
+    n = 0
+    for fn in ("nomt_core::proof::path_proof::verify_update", "nomt_core::proof::multi_proof::verify_update"):
+        body = facts.bodies.get(fn)
+        if body is None:
+            raise CheckBroken("ANCHOR-MISSING function %s" % fn)
+        short = fn.split("::", 1)[1]
+        # the scope check may live in helpers of the verifier
+        cands, st_, seen = [], [(fn, 0)], set()
+        while st_:
+            cur, dp = st_.pop()
+            cb = facts.bodies.get(cur)
+            if cur in seen or cb is None or cb.crate != "nomt_core" or cb.kind == "Closure":
+                continue
+            seen.add(cur)
+            cands.append(cb)
+            if dp < 2:
+                for b, t in cb.calls():
+                    st_.append((t.get("callee") or "", dp + 1))
+        guards = [(cb, sw) for cb in cands for (sw, _e) in panicfree.guard_switches(cb, "OpOutOfScope")]
+        n += 1
+        if not guards:
+            continue  # S3 reports a rejection reason that is never raised
+        import termination
+
+        ok_all, why = True, ""
+        for cb in {g[0].id: g[0] for g in guards}.values():
+            sws = [sw for (b_, sw) in guards if b_.id == cb.id]
+            loops = [(h, blk, lat) for (h, blk, lat) in termination.natural_loops(cb) if any(sw in blk for sw in sws)]
+            eq = {b for b in range(cb.n) if cb.term(b)["k"] == "switch" and not cb.is_cleanup(b) and _decided_by_equality(facts, cb, cb.term(b)["d"])}
+            if loops:
+                # the loop over the operations: the outermost loop that contains a scope branch.  After a scope branch has
+                # let an operation pass, the rest of the iteration passes a comparison for equality (or the branch is one)
+                (h, blk, lat) = max(loops, key=lambda x: len(x[1]))
+                rem = set(cb.ok_removed()) | eq | {x for x in range(cb.n) if x not in blk}
+                for sw in sws:
+                    if sw in eq:
+                        continue
+                    err_edges = {e for (s2, e) in panicfree.guard_switches(cb, "OpOutOfScope") if s2 == sw}
+                    starts = [x for x in cb.succ(sw) if x not in err_edges and x in blk and x not in rem]
+                    reach = cb.reachable(starts, rem)
+                    if (set(lat) | {h}) & reach:
+                        ok_all = False
+                        why = "after the scope branch at %s an iteration can complete without passing a comparison for equality" % cb.term(sw).get("ln")
+            else:
+                # straight-line validation (one operation per call): the equality decides a raising branch
+                if not any(sw in eq for sw in sws):
+                    ok_all = False
+                    why = "no OpOutOfScope branch is decided by an equality"
+        rep.check(ok_all, "S7", short, "scope-by-prefix-equality", "in %s an operation can be accepted without its key's leading bits having been compared for EQUALITY with a proven path (%s; only ordering / length comparisons decide): a key in a gap between proven terminals would be attributed to a neighbouring terminal" % (fn, why), site=body.span, detail="every accepted operation passes an ==/!=/starts_with comparison with a proven path")
+    return n
